@@ -25,7 +25,7 @@ RULE = (
 )
 BOUNDS = {
     "quick": "8 fixtures; regions: parse code + next_parse_offset (5 bytes) of every unit, every 1-byte window of the first sequence header, the C06 quick windows inside picture/fragment/padding units narrowed to 1 byte, the 4 prefix bytes of the first two units, a 6-byte stream prefix, truncation anywhere; default options, plus --show-internal-state / --verbose / --hide slice / --from-offset --to-offset option sets on the parse-info regions of 3 fixtures; declared sizes <= dec.SERDES_BOUNDS",
-    "thorough": "all fixtures; the C06 quick region set, windows inside data units 2 bytes wide on 6 fixtures and 1 byte elsewhere; 8-byte stream prefix on 2 fixtures; option sets on the first 4 parse-info regions and the truncation point of all fixtures",
+    "thorough": "all fixtures; the C06 quick region set, windows inside data units 2 bytes wide on 6 fixtures and 1 byte elsewhere; 8-byte stream prefix on 2 fixtures; option sets on the first 4 parse-info regions and the truncation point of every second fixture",
 }
 OUTSIDE = (
     "regions larger than the bound; streams declaring sizes above the serdes resource bounds; text rendering of symbolic values is "
@@ -82,7 +82,7 @@ def tasks(tier, seed):
         for i in range(min(2, len(units))):
             out.append({"id": "%s/prefix%d" % (name, i), "harness": "region", "args": (name, [(units[i][0], 4)], [])})
         out.append({"id": "%s/truncate" % name, "harness": "truncate", "args": (name, [])})
-        if name in OPTION_FIXTURES or not quick:
+        if name in OPTION_FIXTURES or (not quick and names.index(name) % 2 == 0):
             for oname, argv in OPTION_SETS:
                 out.append({"id": "%s/truncate/%s" % (name, oname), "harness": "truncate", "args": (name, argv)})
                 for label, regions in (pis[:3] if quick else pis[:4]):
